@@ -9,7 +9,8 @@ EXTENDS Integers, Sequences, FiniteSets, TLC
 DLinks == {"e0", "e1", "x0"}
 PA == "/^e[0-9]$/"     \* matches e0 and e1
 PB == "/0$/"           \* matches e0 and x0 - overlaps PA on e0
-DMatches == (PA :> {"e0", "e1"}) @@ (PB :> {"e0", "x0"})
+PC == "/^e[0-1]$/"     \* matches e0 and e1 - overlaps PA on both, and its expression is as long as PA's
+DMatches == (PA :> {"e0", "e1"}) @@ (PB :> {"e0", "x0"}) @@ (PC :> {"e0", "e1"})
 
 Par(pm, rb, vl, bpf) == [promisc |-> pm, rb |-> rb, vlans |-> vl, bpf |-> bpf, disable |-> FALSE]
 D   == Par(FALSE, 1, FALSE, 0)     \* defaults: ring buffer 1 MiB x 4
@@ -34,10 +35,12 @@ C11 == (PA :> D)  @@ (PB :> D)
 C12 == ("e1" :> Rn)
 C13 == (PB :> Rb)
 C14 == (PA :> Rb) @@ (PB :> Rn)
+C15 == (PA :> Vl) @@ (PC :> Rb)
 
 \* configurations in which every interface has exactly one candidate (no free choice)
 PlainCfgs == {C1, C2, C3, C4, C5, C6, C7, C10, C11, C12, C13}
-\* configurations in which two patterns with different parameters match e0 (C9 also disables e1)
-OverlapCfgs == {C8, C9, C14}
+\* configurations in which two patterns with different parameters match e0 (C9 also disables e1; in
+\* C15 the two expressions have the same length and both match e0 and e1)
+OverlapCfgs == {C8, C9, C14, C15}
 AllCfgs == PlainCfgs \cup OverlapCfgs
 =============================================================================
